@@ -1,6 +1,6 @@
 (* C12 -- property theorems only: each closed by [exact lemma], followed by Print Assumptions. *)
 From Coq Require Import List Arith Bool ZArith.
-From Verif Require Import C13.Model C12.Model C12.Proof C12.Dead.
+From Verif Require Import C13.Model C12.Model C12.Proof C12.Dead C12.ReplModel C12.ReplProof.
 Import ListNotations.
 
 (* C12_restore.  For EVERY program P, every top-level form, every fault point k and every fault that is not an
@@ -71,4 +71,35 @@ Example C12_restore_example :
   o = OPanic PV_HOOK /\ restored run0 (rn g') /\ later g' = 1 /\ gx g' = 3.
 Proof. exact example_nested. Qed.
 Example C12_fresh_is_idle : idle run0.
+Proof. repeat split. Qed.
+
+(* ---- the loops that evaluate input after input (Repl, ReplStdin, EvalReader, EvalFile: ReadParseEvalPrint until it
+   returns false), model C12/ReplModel.v of ParseEvalPrint/afterEval's callAgain protocol.
+   With OptTrapPanic set, for EVERY list of inputs - whichever of them panic, inside a special command (:debug EXPR,
+   :inspect EXPR: Interp.Cmd panics before callAgain is assigned) or in plain code - no panic leaves the loop and the
+   inputs that are evaluated are exactly those up to the first executed quit command: an aborted input never stops
+   the session. *)
+Theorem C12_repl_trapped_panic_continues : forall ins, session true ins = (until_quit ins, false).
+Proof. exact session_trap. Qed.
+Print Assumptions C12_repl_trapped_panic_continues.
+
+Theorem C12_repl_every_input_evaluated : forall ins, Forall (fun i => i_quit i = false) ins ->
+  session true ins = (ins, false).
+Proof. exact session_trap_all. Qed.
+Print Assumptions C12_repl_every_input_evaluated.
+
+(* two sessions that differ only in WHICH inputs panic evaluate the same number of inputs *)
+Theorem C12_repl_panics_do_not_shorten_session : forall ins ins', Forall2 same_but_panics ins ins' ->
+  Forall (fun i => i_quit i = false) ins ->
+  length (fst (session true ins)) = length (fst (session true ins')).
+Proof. exact session_trap_length. Qed.
+Print Assumptions C12_repl_panics_do_not_shorten_session.
+
+(* non-vacuity: a session whose 2nd input panics inside a command and whose 3rd panics in plain code *)
+Example C12_repl_example :
+  let ok := mkInput false false false true false true in
+  let cmdp := mkInput false true false false false false in
+  let evp := mkInput false false false true true false in
+  session true [ok; cmdp; evp; ok] = ([ok; cmdp; evp; ok], false) /\ logged true [ok; cmdp; evp; ok] = [0; 3]
+  /\ session false [ok; cmdp; evp; ok] = ([ok; cmdp], true).
 Proof. repeat split. Qed.
